@@ -94,6 +94,67 @@ def st_determinism(props, nseeds, seed=None):
     return status
 
 
+PROBES = {
+    "C01": [("faults_fired.async_exc", 1), ("faults_fired.async_err", 1), ("faults_fired.stall", 1),
+            ("faults_fired.async_exc_crashpoint_sweep", 1), ("preemptions_inside_library_frames", 1),
+            ("ops_begun_while_another_actor_mid_op", 1), ("builder_methods_exercised", 85),
+            ("configs.seq", 1), ("configs.seq+autoalias", 1), ("configs.seq-fault", 1), ("configs.thr", 1),
+            ("configs.thr-contend", 1), ("distinct_interleavings_by_schedule_hash", 10)],
+    "C02": [("faults_fired.async_exc", 1), ("faults_fired.async_err", 1), ("faults_fired.leaf_exc", 1),
+            ("faults_fired.recursion", 1), ("faults_fired.stall", 1), ("faults_fired.hashseed_restart", 1),
+            ("reads_overlapping_a_read_of_the_same_object", 1), ("read_modes.par_own", 1), ("read_modes.hash", 1),
+            ("read_modes.eq", 1), ("rendered_statement_kinds.PostgreSQLQueryBuilder.get_sql[update]", 1),
+            ("runs_compared_across_interpreters_with_other_PYTHONHASHSEED", 1)],
+    "C13": [("sqlite_states_prepared", 1), ("accumulation_list_checks", 1), ("accumulation_conjoin_checks", 1),
+            ("accumulation_lastwins_checks", 1), ("modes.entry", 1), ("modes.cross", 1), ("statement_kinds.setop", 1),
+            ("statement_kinds.create", 1), ("merges_executed_besides_canonical", 100)],
+    "C15": [("duplication_mechanisms.copy", 1), ("duplication_mechanisms.deepcopy", 1), ("duplication_mechanisms.pickle", 1),
+            ("restarts_pickle_to_other_interpreter", 1), ("ops_continued_on_restored_objects", 1),
+            ("mutable_mode_objects", 1), ("builder_calls_on_a_duplicate_or_its_original_after_the_dup", 1),
+            ("faults_fired.async_exc", 1), ("classes_duplicated.Table", 1), ("classes_duplicated.Schema", 1),
+            ("classes_duplicated.Not", 1), ("classes_duplicated._SetOperation", 1)],
+}
+
+
+def st_probes(runs=1500):
+    """Reach probes: a quick run of every check must actually have hit each rare condition the design relies on;
+    a probe stuck at zero fails the SELF-TEST (the workload or fault mix must change), never the check."""
+    import shutil
+    import tempfile
+
+    status = 0
+    tmp = tempfile.mkdtemp(prefix="pikaprobe_")
+    try:
+        for prop, probes in PROBES.items():
+            env = dict(os.environ, PIKASIM_EVIDENCE_DIR=tmp, PIKASIM_REPLAY_DIR=os.path.join(tmp, "replays"))
+            p = subprocess.run([os.path.join(HERE, "check"), prop, "--runs", str(runs)], env=env, capture_output=True, text=True)
+            cov = json.load(open(os.path.join(tmp, prop + ".json")))["coverage"]
+            zero = []
+            for path, need in probes:
+                v = cov
+                # keys may themselves contain dots (e.g. 'Class.get_sql[update]'): longest-prefix walk
+                parts = path.split(".")
+                while parts and isinstance(v, dict):
+                    for k in range(len(parts), 0, -1):
+                        key = ".".join(parts[:k])
+                        if key in v:
+                            v = v[key]
+                            parts = parts[k:]
+                            break
+                    else:
+                        v = 0
+                        parts = []
+                if not isinstance(v, (int, float)) or v < need:
+                    zero.append((path, v if isinstance(v, (int, float)) else 0))
+            print(f"[selftest probes] {prop}: {len(probes) - len(zero)}/{len(probes)} probes reached in {runs} runs"
+                  + (f"; NOT reached: {zero}" if zero else "") + f" (check exit {p.returncode})")
+            if zero or p.returncode != 0:
+                status = 2
+    finally:
+        shutil.rmtree(tmp, ignore_errors=True)
+    return status
+
+
 def main(what, tier):
     if what == "import":
         return st_import()
@@ -102,7 +163,9 @@ def main(what, tier):
         return st_determinism(props, 2000 if tier == "thorough" else 64)
     if what == "all":
         return st_import() or st_determinism(props, 64)
-    if what in ("sensitivity", "probes", "benign"):
+    if what == "probes":
+        return st_probes(6000 if tier == "thorough" else 1500)
+    if what in ("sensitivity", "benign"):
         from . import sensitivity
         return sensitivity.main(what, tier)
     print("unknown selftest", what)
